@@ -39,6 +39,35 @@ class _Break(Exception):
     pass
 
 
+class _Yielded(Exception):
+    def __init__(self, value):
+        self.value = value
+
+
+class Gen:
+    """A call of a repository generator function. Iteration replays the (pure) body up to the k-th yield, so the consumer's laziness is
+    kept: nothing after the last value the consumer asked for is evaluated."""
+
+    def __init__(self, interp, f, node, env, depth):
+        self.interp, self.f, self.node, self.env, self.depth = interp, f, node, env, depth
+
+        self.k = 0
+        self.done = False
+
+    def __iter__(self):
+        return self  # stateful, like a real generator object
+
+    def __next__(self):
+        if self.done:
+            raise StopIteration
+        kind, v = self.interp.run_gen_until(self, self.k)
+        if kind == "stop":
+            self.done = True
+            raise StopIteration
+        self.k += 1
+        return v
+
+
 class _Continue(Exception):
     pass
 
@@ -130,6 +159,7 @@ class Interp:
         self.calls = 0
         self._modconst: dict = {}
         self.overrides: dict = {}  # (module rel, name) -> value: rule-supplied bindings of module globals (e.g. ctx.options)
+        self._gen_targets: list = []  # replay frames of generator calls: [k, yields seen]
 
     # ------------------------------------------------------------------ entry
     def call(self, rel: str, qual: str, *args, **kwargs):
@@ -302,6 +332,8 @@ class Interp:
     def iterate(self, v, node):
         if isinstance(v, DictRec):
             return list(v._items)
+        if isinstance(v, Gen):
+            return iter(v)  # lazy
         if isinstance(v, (list, tuple, set, frozenset, dict, str, bytes, range)) or hasattr(v, "__next__") or type(v).__name__ in ("dict_items", "dict_keys", "dict_values", "zip", "enumerate", "map", "filter", "reversed"):
             return list(v)
         raise AnalysisError(f"pyint: iteration over {type(v).__name__} not modelled: {norm(node)}")
@@ -422,6 +454,12 @@ class Interp:
             v = self.ev(e.value, env, mod, depth)
             self.assign(e.target, v, env, mod, depth)
             return v
+        if isinstance(e, ast.Yield):
+            return self.do_yield(self.ev(e.value, env, mod, depth) if e.value is not None else None)
+        if isinstance(e, ast.YieldFrom):
+            for x in self.iterate(self.ev(e.value, env, mod, depth), e.value):
+                self.do_yield(x)
+            return None
         if isinstance(e, ast.Attribute):
             base = self.ev(e.value, env, mod, depth)
             return self.getattr(base, e.attr, e, depth)
@@ -989,13 +1027,49 @@ class Interp:
                 raise Raised("TypeError", f"missing argument {p}")
         if isinstance(node, ast.Lambda):
             return self.ev(node.body, env, f.mod, depth)
+        is_gen = False
         for n in ast.walk(node):
-            if isinstance(n, (ast.Yield, ast.YieldFrom, ast.Await)) and self._owner(n, node):
-                raise AnalysisError(f"pyint: {node.name} is a generator/coroutine (not a pure decision function)")
+            if isinstance(n, ast.Await) and self._owner(n, node):
+                raise AnalysisError(f"pyint: {node.name} is a coroutine (not a pure decision function)")
+            if isinstance(n, (ast.Yield, ast.YieldFrom)) and self._owner(n, node):
+                is_gen = True
+        if is_gen:
+            if isinstance(node, ast.AsyncFunctionDef):
+                raise AnalysisError(f"pyint: {node.name} is an async generator (not modelled)")
+            return Gen(self, f, node, env, depth)
         try:
             self.block(node.body, env, f.mod, depth)
         except _Return as r:
             return r.value
+        return None
+
+    def run_gen_until(self, g: "Gen", k: int):
+        """Replay the *pure* generator ``g`` from the start and stop at its k-th yield: ('yield', value) | ('stop', return value).
+        Laziness is preserved (code after the k-th yield is not run), at quadratic cost - meant for short abstract inputs."""
+        import copy as _copy
+
+        env = {}
+        for name, v in g.env.items():
+            env[name] = _copy.copy(v) if isinstance(v, (list, dict, set, bytearray)) else v
+        self._gen_targets.append([k, 0])
+        try:
+            try:
+                self.block(g.node.body, env, g.f.mod, g.depth)
+            except _Yielded as y:
+                return ("yield", y.value)
+            except _Return as r:
+                return ("stop", r.value)
+            return ("stop", None)
+        finally:
+            self._gen_targets.pop()
+
+    def do_yield(self, value):
+        if not self._gen_targets:
+            raise AnalysisError("pyint: yield outside a generator replay")
+        top = self._gen_targets[-1]
+        if top[1] == top[0]:
+            raise _Yielded(value)
+        top[1] += 1
         return None
 
     @staticmethod
